@@ -319,6 +319,15 @@ Theorem C07_coins_moved_exactly :
 Proof. exact step_coins. Qed.
 Print Assumptions C07_coins_moved_exactly.
 
+(* A plain bank transfer addressed to the swap module account is refused (the module
+   account is a blocked address), so custody cannot be diluted from outside the keeper. *)
+Theorem C07_direct_send_to_module_refused :
+  forall e s who d amt, step e s (BankSend who d amt) = Err /\ step' e s (BankSend who d amt) = s.
+Proof.
+  intros. unfold step', step. destruct (negb (op_in_range e (BankSend who d amt))); split; reflexivity.
+Qed.
+Print Assumptions C07_direct_send_to_module_refused.
+
 (* A failed operation leaves no change (transaction discarded). *)
 Theorem C07_failed_changes_nothing :
   forall e s o, (forall s' u, step e s o <> Ok s' u) -> step' e s o = s.
